@@ -75,7 +75,7 @@ def run(tier, seed):
     ck = Check("C07", "model_checking", tier, seed)
     # ---- design level
     n = 40 if tier == "quick" else 200
-    progs, srcs = refrun.gen_programs(seed + 3, n, 3, err_rate=3.0)
+    progs, srcs = refrun.gen_programs(seed + 3, n, 3, err_rate=3.0, features={"ext": True, "ext2": "half"})
     d = scratch_dir("c07")
     try:
         path = os.path.join(d, "p.ndjson")
